@@ -62,12 +62,15 @@ def monitored_battery(sut, rng, stats, out, t=None, probes=None, lite=False):
         w0 = M.WRITES[0]
         d0 = M.store_digest(t)
         steps = [0]
+        seen_w = [w0]
 
         def hook():
             steps[0] += 1
             stats["C14_iterator_steps"] += 1
-            if M.WRITES[0] != w0:
-                raise B.MonitorAlarm("write event during iterator step %d of %s" % (steps[0], name))
+            if M.WRITES[0] != seen_w[0]:
+                seen_w[0] = M.WRITES[0]
+                if M.store_digest(t) != d0:
+                    raise B.MonitorAlarm("store bytes changed during iterator step %d of %s" % (steps[0], name))
 
         try:
             return thunk(hook)
@@ -75,10 +78,11 @@ def monitored_battery(sut, rng, stats, out, t=None, probes=None, lite=False):
             stats["C14_windows"] += 1
             w1 = M.WRITES[0]
             d1 = M.store_digest(t)
-            if w1 != w0:
-                out.append(D(["C14"], "write-event-in-read-only-request", call=name, events=w1 - w0))
             if d1 != d0:
-                out.append(D(["C14"], "store-bytes-changed-by-read-only-request", call=name))
+                out.append(D(["C14"], "store-bytes-changed-by-read-only-request", call=name, write_events=w1 - w0))
+            elif w1 != w0:
+                # write events that leave every byte as it was (an idempotent rewrite): "changes a single byte" is not met
+                stats["note_write_events_without_byte_change_in_read_only_requests"] += w1 - w0
 
     foreign = []
     W0 = M.WRITES[0]
@@ -87,12 +91,12 @@ def monitored_battery(sut, rng, stats, out, t=None, probes=None, lite=False):
     try:
         ans, (n_ok, n_ref, n_exc) = B.run(t, probes, around=around, foreign=foreign, lite=lite)
     except B.MonitorAlarm as e:
-        out.append(D(["C14"], "write-event-in-read-only-request", msg=str(e)))
+        out.append(D(["C14"], "store-bytes-changed-by-read-only-request", msg=str(e)))
         return
     finally:
         # the battery itself enumerates pages and prefixes to choose its arguments (pages_iter,
         # webentity_prefix_iter): those reads are inside this outer window
-        if len(out) == n_alarms and (M.WRITES[0] != W0 or M.store_digest(t) != D0):
+        if len(out) == n_alarms and M.store_digest(t) != D0:
             out.append(D(["C14"], "write-event-in-read-only-request", call="pages_iter / webentity_prefix_iter (enumeration that opens the battery)",
                          events=M.WRITES[0] - W0))
     stats["C14_calls_succeeded"] += n_ok
